@@ -7,6 +7,8 @@ from symx.proto import (Entropy, setup_hash_axioms, outcome, okind, orders, new_
 from checks.c07 import _state, _unchanged
 
 PID = "C08"
+TECHNIQUE = 'symbolic execution of original vs k-fold restored instance on the same symbolic inbound message; z3 decides identical outcome class and key; serialize purity by state snapshots; real scalar codecs on [0,q)'
+LEVEL_NOTE = 'JSON modelled as an opaque inverse pair; GC contract'
 EXPLANATION = (
     "For each real class an instance is started with symbolic password/identities/entropy; a second instance is obtained "
     "by k in {1,2,3} rounds of the real serialize() -> from_serialized(); both receive the same fully symbolic inbound "
